@@ -150,6 +150,12 @@ func (g *Group) optionByName(name string, namematch func(*Option, string) bool) 
 
 	g.eachGroup(func(g *Group) {
 		for _, opt := range g.options {
+			// An option tagged no-ini does not exist for the ini reader
+			// (and must not hide another option that answers to the name)
+			if len(opt.tag.Get("no-ini")) != 0 {
+				continue
+			}
+
 			if namematch != nil && namematch(opt, name) && prio < 4 {
 				retopt = opt
 				prio = 4
